@@ -9,7 +9,8 @@ hits a fetched word); mem[1] never above its load-time value and equal to it whe
 return address of main.  System-call argument accesses count as accesses of the SVC instruction.
 Regions: DATA words and the address of _exit are read off the assembly listing `xcmp -S` of the same source.
 Programs: those of C01 (shared generator, decided well-defined by the extracted XSem) plus recursion up to
-the stack budget and arrays filling the top of memory (MEMW - image - stack - {0,1,2,3} words)."""
+the stack budget and arrays filling the top of memory (MEMW - image - stack - {0,1,2,3} words), and recursion to the
+stack budget through a body that is a sequence of array-element assignments, sized from the frame accounting."""
 import os, sys, json, multiprocessing
 sys.path.insert(0, os.path.dirname(os.path.abspath(__file__)))
 import vlib, xcommon, xgen, xparse, c01
@@ -64,6 +65,19 @@ def deep_source(depth, nlocals):
             'proc main() is { g := 0; put(65 + deep(%d), 0); exit(g - %d) }\n' % (depth, depth))
 
 
+def walk_source(depth, k, pad):
+    """a recursive procedure whose body is a sequence of k array-element assignments and the recursive call, below arrays
+    that fill the top of memory.  Its frame: no locals, one temporary (the element address of an assignment, free again
+    after each), two outgoing words (link, one actual) = 3 words per activation"""
+    body = '; '.join('mark[%d] := n + %d' % (i, i) for i in range(k))
+    return (HDR + 'array pad[%d];\narray mark[%d];\n' % (pad, k) +
+            'proc walk(val n) is if n = 0 then skip else { %s; walk(n - 1) }\n' % body +
+            'proc main() is { pad[0] := 0; pad[%d] := 1; walk(%d); put(mark[%d] + 48, 0); exit(pad[%d]) }\n' % (pad - 1, depth, k - 1, pad - 1))
+
+
+WALK_FRAME = 3        # words per activation of walk by the frame accounting locals + temporaries + outgoing words
+
+
 def special_jobs(ck):
     """(name, source) of boundary programs, computed from measured stack use of the real binary"""
     out = []
@@ -106,6 +120,31 @@ def special_jobs(ck):
         for dd in (dmax, dmax - 1):
             out.append(('special/deep-l%d-depth%d' % (nlocals, dd), deep_source(dd, nlocals)))
         notes['deep-%d' % nlocals] = {'words_per_level': per, 'base': base, 'depth': dmax, 'free_words': budget}
+    # recursion to the stack budget with a sequence of array-element assignments in the body, the arrays filling the top of
+    # memory; the depth is chosen from the frame size the frame accounting warrants (WALK_FRAME), NOT from the frame the
+    # compiler under test happens to allocate: activations that are larger than that run the stack into the image
+    for k, depth in ((4, 1900), (7, 1500), (10, 1200)):
+        r0, nw, sp0 = measure(walk_source(10, k, 1000))
+        if not (r0['isa'] and r0['isa'][0]['end'] == 'exit'):
+            out.append(('special/walk-k%d-ref' % k, walk_source(10, k, 1000)))
+            continue
+        base = sp0 - r0['isa'][0]['minsp'] - 10 * WALK_FRAME          # main's frame and the last activation
+        if base < 0 or base > 64:
+            base = 8
+        need = WALK_FRAME * depth + base
+        for slack in (0, 2):
+            pad = 1000
+            for _ in range(4):                                        # the image length depends (weakly) on the constants
+                pad2 = MEMW - 3 - k - nw - need - slack
+                if pad2 == pad:
+                    break
+                pad = pad2
+                r1, nw1, sp1 = measure(walk_source(depth, k, pad), maxisa=2000)
+                if nw1 is None:
+                    break
+                nw = nw1
+            out.append(('special/walk-k%d-depth%d-slack%d' % (k, depth, slack), walk_source(depth, k, pad)))
+        notes['walk-%d' % k] = {'words_per_level_by_frame_accounting': WALK_FRAME, 'base': base, 'depth': depth, 'pad_words': pad, 'image_words': nw}
     ck.cov['boundary_programs'] = notes
     return [('src', n, s.encode('latin-1'), [[]], 400000, 1990) for n, s in out]
 
